@@ -38,8 +38,9 @@ import (
 // AddMessageGasEstimates+CheckAndProcessEstimatedMessages, signatures are real secp256k1
 // signatures added with AddMessageSignature, evidence is added with AddMessageEvidence and the
 // attestation runs through ConsensusKeeper.CheckAndProcessAttestedMessages (the function the
-// consensus end blocker calls), which reaches evm's attestRouter.  One dedicated scenario goes
-// through real MsgAddEvidence transactions and the real end blocker.
+// consensus end blocker calls), which reaches evm's attestRouter.  One dedicated scenario
+// (c07EarlyEvidenceBlock, also used by the C09 check) goes through real MsgAddEvidence
+// transactions and the real end blocker.
 
 const c07Chain = "c07"
 
@@ -1029,8 +1030,16 @@ func (e *c07Env) driveMessage(ctx sdk.Context, id uint64, kind string, caseKey *
 	if winner == "tx" && tx.exact && tx.status == 1 {
 		r.Stat(fmt.Sprintf("exact-tx:%s:est=%v:sigs=%d:%s:fx=%d", kind, estimated, k, class, len(fx)))
 	}
-	if class == "panic" && !(!estimated && (kind == "slc" || kind == "usc") && winner == "tx" && tx.status == 1) {
-		r.Hit("no_unexpected_panic", "attestation panicked outside the known nil-Fees case", e.lines)
+	if class == "panic" {
+		if !estimated && (kind == "slc" || kind == "usc") {
+			// regression of /repo cab3e325: VerifyAgainstTX dereferencing the nil Fees
+			r.Hit("no_panic_on_early_evidence", "evidence before the gas estimate was elected panicked the attestation of a "+kind, e.lines)
+		} else {
+			r.Hit("no_unexpected_panic", "attestation panicked", e.lines)
+		}
+	}
+	if !estimated && (kind == "slc" || kind == "usc") && winner == "tx" {
+		r.Stat("early-evidence:" + kind + ":" + class)
 	}
 
 	// 6. follow-ups
@@ -1079,6 +1088,9 @@ func (e *c07Env) driveMessage(ctx sdk.Context, id uint64, kind string, caseKey *
 		}
 		class2, _ := e.attest(ctx, id2, "tx", tx, kind)
 		r.Stat("resubmit:" + kind + ":" + class2)
+		if class2 == "panic" {
+			r.Hit("no_panic_on_early_evidence", "re-submission panicked the attestation", e.lines)
+		}
 		e.cleanup(ctx, id2)
 	}
 	if kind == "up" {
@@ -1114,73 +1126,103 @@ func (e *c07Env) cleanup(ctx sdk.Context, id uint64) {
 	e.op(fmt.Sprintf("rm %d", id), "ok")
 }
 
-// c07EndBlockerScenario: evidence for a SubmitLogicCall whose fees were never set (no gas
-// estimate elected), delivered through real MsgAddEvidence transactions and attested by the
-// real consensus end blocker.  Recorded as a finding (stats), not as a C07 monitor hit.
-func c07EndBlockerScenario(t *testing.T, r *Rec) {
-	e := newC07Env(t, r, r.Seed*1000+999)
-	fa := e.fa
+// c07EarlyEvidenceBlock is the block-abort scenario of the nil-Fees defect fixed by /repo
+// cab3e325, through REAL transactions and the REAL end blocker (exported for the C09 check):
+//   - a SubmitLogicCall is enqueued on an active EVM chain (the first active one; "c07early" is
+//     activated when there is none) through AddSmartContractExecutionToConsensus; no gas
+//     estimate is ever submitted, so its Fees stay nil;
+//   - every validator reports the same successful transaction for it with a MsgAddEvidence tx,
+//     all in ONE block, so the consensus end blocker of that very block sees a quorum and attests.
+//
+// The result of that block is returned.  Before the fix FinalizeBlock panicked (b.Panic contains
+// "nil pointer", fa is Broken until Restart()); now the block must be OK.  It fails the test only
+// when the scenario cannot be set up.
+func c07EarlyEvidenceBlock(t *testing.T, fa *FullApp) FABlockResult {
+	t.Helper()
+	chain := ""
+	if names := fa.App().EvmKeeper.GetActiveChainNames(fa.CtxCached()); len(names) > 0 {
+		chain = names[0]
+	} else {
+		chain = "c07early"
+		if b, err := fa.ActivateEVMChain(FAEvmChain{RefID: chain, ChainID: 4243, ABI: c05CompassABI(t), Bytecode: []byte{0x60, 0x01}}); err != nil || !b.OK() {
+			t.Fatalf("c07EarlyEvidenceBlock: activate: %v %v", err, b.Err)
+		}
+	}
+	if b := fa.KeepAliveAll(); !b.OK() {
+		t.Fatalf("c07EarlyEvidenceBlock: keep alive: %v %s", b.Err, b.Panic)
+	}
+	queue := consensustypes.Queue(evmtypes.ConsensusTurnstoneMessage, "evm", chain)
 	var id uint64
-	var tx *c07Tx
-	_, err := fa.WithDeliverCtx(func(ctx sdk.Context) error {
-		var err error
-		if id, err = e.newSLC(ctx); err != nil {
-			return err
-		}
-		if err := e.sign(ctx, id, []int{0, 1, 2}); err != nil {
-			return err
-		}
-		if err := e.publicAccess(ctx, id, e.observe(ctx).cur); err != nil {
-			return err
-		}
-		s := e.load(ctx, id)
-		ca := e.relayerArgs(s, 3)
-		data, err := e.abi.Pack(ca.method, ca.args...)
+	if _, err := fa.WithDeliverCtx(func(ctx sdk.Context) error {
+		ci, err := fa.App().EvmKeeper.GetChainInfo(ctx, chain)
 		if err != nil {
 			return err
 		}
-		compass := common.HexToAddress("0xC0")
-		tx = &c07Tx{tx: e.mkTx(&compass, data), status: 1}
-		tx.proofAny = e.proof(tx.tx, 1, false)
-		return nil
+		id, err = fa.App().EvmKeeper.AddSmartContractExecutionToConsensus(ctx, chain, string(ci.SmartContractUniqueID), &evmtypes.SubmitLogicCall{
+			HexContractAddress: "0x00000000000000000000000000000000000000aa", Abi: []byte("[]"), Payload: []byte{0x01, 0x02},
+			Deadline: ctx.BlockTime().Unix() + 600, SenderAddress: fa.Vals[0].Addr,
+		})
+		return err
+	}); err != nil {
+		t.Fatalf("c07EarlyEvidenceBlock: enqueue: %v", err)
+	}
+	// any successful transaction will do: the defect was hit before the call data is compared
+	key, _ := ethcrypto.ToECDSA(ethcrypto.Keccak256([]byte("c07-early-evidence")))
+	to := common.HexToAddress("0x00000000000000000000000000000000000000C0")
+	chainID := big.NewInt(4243)
+	tx, err := ethtypes.SignNewTx(key, ethtypes.NewLondonSigner(chainID), &ethtypes.DynamicFeeTx{
+		ChainID: chainID, Nonce: uint64(fa.Height()), To: &to, Data: []byte{0xa9, 0x30, 0xe8, 0xdc}, Gas: 100_000,
+		GasFeeCap: big.NewInt(1_000_000_000), GasTipCap: big.NewInt(1),
 	})
 	if err != nil {
 		t.Fatal(err)
 	}
-	// two validators report in one block: no quorum yet, the block is fine
+	raw, _ := tx.MarshalBinary()
+	rc, _ := (&ethtypes.Receipt{Type: ethtypes.DynamicFeeTxType, Status: ethtypes.ReceiptStatusSuccessful, CumulativeGasUsed: 21000}).MarshalBinary()
+	proof, err := codectypes.NewAnyWithValue(&evmtypes.TxExecutedProof{SerializedTX: raw, SerializedReceipt: rc})
+	if err != nil {
+		t.Fatal(err)
+	}
 	var txs []FATx
-	for i := 0; i < 2; i++ {
+	for i := range fa.Vals {
 		v := fa.ValidatorOperator(i)
 		txs = append(txs, FATx{Signers: []*FAAccount{v}, Msgs: []sdk.Msg{&consensustypes.MsgAddEvidence{
-			Proof: tx.proofAny, MessageID: id, QueueTypeName: e.queue, Metadata: FAMeta(v.Addr, v.Addr),
+			Proof: proof, MessageID: id, QueueTypeName: queue, Metadata: FAMeta(v.Addr, v.Addr),
 		}}})
 	}
 	b := fa.DeliverTxs(txs...)
-	if !b.OK() {
-		t.Fatalf("evidence block 1: %v %s", b.Err, b.Panic)
-	}
-	for _, x := range b.Txs {
-		if !x.OK() {
-			t.Fatalf("MsgAddEvidence rejected: %s", x.Log)
+	if b.OK() {
+		for i, x := range b.Txs {
+			if !x.OK() {
+				t.Fatalf("c07EarlyEvidenceBlock: MsgAddEvidence of validator %d rejected: %s", i, x.Log)
+			}
 		}
 	}
-	// the third report completes the quorum: the end blocker of THIS block attests
-	v := fa.ValidatorOperator(2)
-	b = fa.DeliverTxs(FATx{Signers: []*FAAccount{v}, Msgs: []sdk.Msg{&consensustypes.MsgAddEvidence{
-		Proof: tx.proofAny, MessageID: id, QueueTypeName: e.queue, Metadata: FAMeta(v.Addr, v.Addr),
-	}}})
-	switch {
-	case b.Panic != "" && strings.Contains(b.Panic, "nil pointer"):
-		r.Stat("finding:nil-fees-evidence-panics-in-end-blocker")
+	return b
+}
+
+// c07EndBlockerScenario runs c07EarlyEvidenceBlock on a fresh app and turns a block abort into
+// a monitor hit; it also checks that the attestation really ran (message gone from the queue).
+func c07EndBlockerScenario(t *testing.T, r *Rec) {
+	e := newC07Env(t, r, r.Seed*1000+999)
+	before := len(e.observe(e.fa.CtxCached()).queue)
+	b := c07EarlyEvidenceBlock(t, e.fa)
+	r.Case("early-evidence-block", true)
+	if !b.OK() {
 		first := b.Panic
 		if i := strings.Index(first, "\n"); i > 0 {
 			first = first[:i]
 		}
-		t.Logf("FINDING (C07 watch item): quorum evidence for a SubmitLogicCall with Fees == nil panics in FinalizeBlock (end blocker): %s", first)
-		fa.Restart()
-	case !b.OK():
-		t.Fatalf("unexpected block failure: %v %s", b.Err, b.Panic)
-	default:
-		r.Stat("finding:nil-fees-evidence-handled-without-panic")
+		r.Hit("no_panic_on_early_evidence", fmt.Sprintf("block with quorum evidence for a SubmitLogicCall without fees did not commit: %v %s", b.Err, first),
+			"c07EarlyEvidenceBlock: AddSmartContractExecutionToConsensus; MsgAddEvidence x4 in one block; no gas estimate")
+		e.fa.Restart()
+		return
+	}
+	r.Stat("early-evidence-block:ok")
+	// the junk transaction does not verify: ErrEthTxNotVerified is committed, the message is removed
+	if after := len(e.observe(e.fa.CtxCached()).queue); after != before {
+		r.Stat(fmt.Sprintf("early-evidence-block:queue-%d-to-%d", before, after))
+	} else {
+		r.Stat("early-evidence-block:message-attested-and-removed")
 	}
 }
